@@ -12,6 +12,7 @@
 From Coq Require Import List NArith Bool Arith.
 From Coq Require Export Init.Byte.
 From Onet Require Export Base.Corr Base.BytesC03 Net.Frame Net.Marshal.
+From Onet Require Net.SendConc.
 Import ListNotations.
 
 (* which variant of the code the correspondence compares with; the integrator
@@ -76,6 +77,8 @@ Inductive case :=
 | CLocal (pool : list pentry) (items : list nat) (sends : list bool)
          (delivered : list nat) (valeq crash : bool)                   (* LocalRouter pair *)
 | CConc (pool : list pentry) (senders : list (list nat)) (sends : list bool)
+        (limit : N)
+        (owire : option (list chunk))   (* OBSERVED (scripted connection only): the bytes on the wire *)
         (delivered : list nat) (valeq crash : bool).                   (* goroutines sending on ONE connection *)
 
 (* ---- the codec table ------------------------------------------------------ *)
@@ -207,8 +210,75 @@ Fixpoint is_merge (d : list nat) (ss : list (list nat)) : bool :=
                end
   end.
 
-Definition conc_agree (pool : list pentry) (senders : list (list nat)) (delivered : list nat) : bool :=
-  is_merge delivered (map (model_local pool (pool_bytes pool)) senders).
+(* The transition system of Net/SendConc.v (with the mutex) is run on the
+   schedule read off the observation: the order in which the delivered values
+   appeared says in which order the goroutines held the lock; each call is run
+   as lock / marshal / header / one Write / finish / unlock.  The observation
+   agrees with the model when that schedule is executable, every goroutine
+   ends with nothing left to send, the bytes the model puts on the wire are the
+   bytes observed (where they were captured), and the model receiver, fed the
+   model's wire, dispatches exactly what was observed. *)
+Fixpoint pop_idx (x : nat) (ss : list (list nat)) (i : nat) : option (nat * list (list nat)) :=
+  match ss with
+  | [] => None
+  | [] :: r => option_map (fun p => (fst p, [] :: snd p)) (pop_idx x r (S i))
+  | (y :: s) :: r =>
+      if x =? y then Some (i, s :: r)
+      else option_map (fun p => (fst p, (y :: s) :: snd p)) (pop_idx x r (S i))
+  end.
+
+Fixpoint order_of (d : list nat) (ss : list (list nat)) : option (list nat) :=
+  match d with
+  | [] => Some []
+  | x :: d' => match pop_idx x ss 0 with
+               | Some (i, ss') => option_map (cons i) (order_of d' ss')
+               | None => None
+               end
+  end.
+
+Fixpoint set_nth {A} (l : list A) (i : nat) (x : A) : list A :=
+  match l, i with
+  | [], _ => []
+  | _ :: r, O => x :: r
+  | y :: r, S j => y :: set_nth r j x
+  end.
+
+Fixpoint sched_of (pb : list bytes) (order : list nat) (ss : list (list nat))
+  : list (nat * SendConc.act) :=
+  match order with
+  | [] => []
+  | i :: r =>
+      match nth_error ss i with
+      | Some (k :: rest) =>
+          SendConc.whole_send i (lenN (payload pb k)) ++ sched_of pb r (set_nth ss i rest)
+      | _ => []
+      end
+  end.
+
+Definition conc_agree (pool : list pentry) (senders : list (list nat)) (limit : N)
+           (owire : option (list chunk)) (delivered : list nat) : bool :=
+  let pb := pool_bytes pool in
+  let vals := map (model_local pool pb) senders in
+  list_eqb Nat.eqb (map (@length nat) vals) (map (@length nat) senders) &&
+  match order_of delivered vals with
+  | None => false
+  | Some order =>
+      let progs := fun i => match nth_error senders i with Some l => l | None => [] end in
+      let msh := fun k : nat => Some (payload pb k) in
+      match SendConc.run msh true (sched_of pb order senders) (SendConc.init progs) with
+      | None => false
+      | Some s =>
+          forallb (fun i => match SendConc.todo (SendConc.thr s i) with [] => true | _ => false end)
+                  (seq 0 (length senders)) &&
+          (match SendConc.holder s with None => true | Some _ => false end) &&
+          (match owire with
+           | Some w => bytes_eqb (expand pb w) (SendConc.wire s)
+           | None => true
+           end) &&
+          (let (d, cl) := model_router pool pb limit [SendConc.wire s] in
+           nats_eqb delivered d && negb cl)
+      end
+  end.
 
 Definition agree (c : case) : bool :=
   match c with
@@ -232,8 +302,8 @@ Definition agree (c : case) : bool :=
   | CLocal pool items sends delivered _ crash =>
       negb crash && forallb (fun b => b) sends &&
       nats_eqb delivered (model_local pool (pool_bytes pool) items)
-  | CConc pool senders sends delivered _ crash =>
-      negb crash && forallb (fun b => b) sends && conc_agree pool senders delivered
+  | CConc pool senders sends limit owire delivered _ crash =>
+      negb crash && forallb (fun b => b) sends && conc_agree pool senders limit owire delivered
   end.
 
 Definition mismatches (l : list case) : list nat := mism_idx agree l.
@@ -359,7 +429,7 @@ Definition check (c : case) : list nat :=
       let pb := pool_bytes pool in
       let cl := map (fun k => classify 4294967295%N pool pb (IMsg k)) items in
       clause 5 (negb crash) ++ clause 4 valeq ++ clause 1 (nats_eqb delivered (legit_all cl))
-  | CConc pool senders sends delivered valeq crash =>
+  | CConc pool senders sends _ _ delivered valeq crash =>
       clause 5 (negb crash) ++ clause 4 valeq ++
       clause 1 (is_merge delivered (conc_expected pool senders))
   end.
